@@ -998,6 +998,12 @@ MUX_HABORT = [
 # directed scenarios replayed in every run; the first is the history that reproduced F-C15a (repaired by 1201bc6; the same
 # history also comes from TLC's near-miss counterexample above) and must now pass
 MUX_DIRECTED = [
+    {"beh": ["known", "silent", "silent"], "rb": 1, "later": 1, "tag": "directed dual-stack ufrag: RemoveConnByUfrag clears both tables",
+     "acts": [{"ev": "Dial", "c": 1, "w": True}, {"ev": "Send", "c": 1, "w": True}, {"ev": "Get", "u": "u1", "w": True}, {"ev": "Get", "u": "u1/6", "w": True},
+              {"ev": "Remove", "u": "u1", "w": True}, {"ev": "Get", "u": "u1/6", "w": True}, {"ev": "Get", "u": "u1", "w": True},
+              {"ev": "Remove", "u": "u1", "w": True}, {"ev": "Advance", "w": True}]},
+    {"beh": ["silent", "silent", "silent"], "rb": 1, "later": 1, "tag": "directed IPv6-only registration removed and closed",
+     "acts": [{"ev": "Get", "u": "u9/6", "w": True}, {"ev": "Remove", "u": "u9", "w": True}, {"ev": "Get", "u": "u9/6", "w": True}, {"ev": "Close", "w": True}]},
     {"beh": ["known", "silent"], "rb": 1, "later": 1, "tag": "directed remove-then-get (regression F-C15a)",
      "acts": [{"ev": "Get", "u": "u1", "w": True}, {"ev": "Remove", "u": "u1", "w": True}, {"ev": "Get", "u": "u1", "w": False},
               {"ev": "Dial", "c": 1, "w": True}, {"ev": "Send", "c": 1, "w": True}]},
